@@ -75,11 +75,11 @@ func (c *valueCtx) Value(key interface{}) interface{} {
 // The stub context types implement context.Context so that they can flow through
 // context.Context-typed variables of the library.
 func (emptyCtx) Deadline() (deadline timeT, ok bool)  { return }
-func (emptyCtx) Done() <-chan struct{}               { return nil }
-func (emptyCtx) Err() error                          { return nil }
+func (emptyCtx) Done() <-chan struct{}                { return nil }
+func (emptyCtx) Err() error                           { return nil }
 func (*valueCtx) Deadline() (deadline timeT, ok bool) { return }
-func (*valueCtx) Done() <-chan struct{}              { return nil }
-func (*valueCtx) Err() error                         { return nil }
+func (*valueCtx) Done() <-chan struct{}               { return nil }
+func (*valueCtx) Err() error                          { return nil }
 
 func CtxBackground() context.Context { return emptyCtx{} }
 
